@@ -1029,6 +1029,7 @@ func checkCloseIsBarrier(c *Ctx, rule string) {
 // block on it, and Serve joins the workers that run them, so the cancellation must come before the join — a deferred
 // cancel alone runs only after wg.Wait() has returned.
 func checkContextCancelledBeforeJoin(c *Ctx, rule string) {
+	checkRequestsCarrySessionContext(c, rule)
 	p := c.P
 	fn := p.Func("(*RequestServer).Serve")
 	if fn == nil {
@@ -1076,4 +1077,80 @@ func checkContextCancelledBeforeJoin(c *Ctx, rule string) {
 			"the session context is cancelled only by the deferred call, after wg.Wait(): a handler that waits on Request.Context() (documented to end when the connection closes) is never released and Serve blocks in the join")
 	})
 	c.check(n == 1, rule, "RequestServer.Serve join", p.Pos(fn.Pos()), "one wg.Wait()", fmt.Sprintf("%d wg.Wait() calls", n))
+}
+
+// checkRequestsCarrySessionContext: Request.Context is documented to end "when the request is complete or the client's
+// connection closes", and Serve cancels the session context before it joins the workers.  That only helps a handler
+// whose Request was given a context derived from the session's: every Request on which the worker calls a handler
+// (Request.call / open / opendir) must come from the handle table, from requestFromPacket (which derives a context), or
+// be a literal whose ctx field is set from the worker's context parameter.  A literal without it answers
+// Context() with context.Background(): a handler waiting on it is never released and Serve never returns.
+func checkRequestsCarrySessionContext(c *Ctx, rule string) {
+	p := c.P
+	worker := p.Func("(*RequestServer).packetWorker")
+	if worker == nil {
+		c.missing(rule, "(*RequestServer).packetWorker")
+		return
+	}
+	var ctxParam *ssa.Parameter
+	for _, prm := range worker.Params {
+		if prm.Type().String() == "context.Context" {
+			ctxParam = prm
+		}
+	}
+	fromSession := func(v ssa.Value) bool {
+		if ctxParam == nil {
+			return false
+		}
+		for _, l := range leavesOf(v) {
+			if l.Kind == leafParam && l.Param == ctxParam {
+				return true
+			}
+			if l.Kind == leafCallResult {
+				for _, a := range l.Call.Args {
+					if a == ssa.Value(ctxParam) {
+						return true
+					}
+				}
+			}
+		}
+		return false
+	}
+	n := 0
+	for _, site := range callsWhere(worker, func(cc *ssa.CallCommon) bool {
+		f := cc.StaticCallee()
+		return f != nil && f.Signature.Recv() != nil && typeName(f.Signature.Recv().Type()) == "Request" && (f.Name() == "call" || f.Name() == "open" || f.Name() == "opendir")
+	}) {
+		recv := recvOf(callOf(site))
+		for _, l := range leavesOfIface(recv) {
+			a, ok := l.(*ssa.Alloc)
+			if !ok {
+				continue // a table entry, the result of requestFromPacket: built with a context
+			}
+			if typeName(a.Type()) != "Request" {
+				continue
+			}
+			n++
+			v := litField(a, "ctx")
+			c.check(v != nil && !isNilConst(v) && fromSession(v), rule, "the Request built for "+caseNameOf(worker, a)+" carries the session's context", p.Pos(a.Pos()), "ctx is derived from the worker's context",
+				"this Request is built without a context: Request.Context() answers context.Background(), which is never cancelled — a handler that waits for it when the client hangs up during this request is never released, and Serve never returns")
+		}
+	}
+	c.check(n >= 4, rule, "Requests built in place by the worker", p.Pos(worker.Pos()), fmt.Sprintf("%d literals", n), fmt.Sprintf("only %d Request literals found in packetWorker (FSTAT, FSETSTAT, posix-rename, statvfs expected)", n))
+}
+
+// caseNameOf names the type-switch arm of fn in which the instruction lies (for stable keys).
+func caseNameOf(fn *ssa.Function, in ssa.Instruction) string {
+	gv := requestSwitchValue(fn)
+	best := "?"
+	var bestB *ssa.BasicBlock
+	if gv == nil {
+		return best
+	}
+	for _, tc := range typeCasesOn(fn, gv) {
+		if tc.Body != nil && (tc.Body == in.Block() || tc.Body.Dominates(in.Block())) && (bestB == nil || bestB.Dominates(tc.Body)) {
+			best, bestB = typeName(tc.Asserted), tc.Body
+		}
+	}
+	return best
 }
